@@ -41,6 +41,7 @@ import (
 // date          additionally writes YYYY-MM-DD strings plain (1.2 core: string;
 //               yaml.v3 lineage: !!timestamp).
 // alias-raw     aliases also below enum/default/example/… values.
+// alias-refpath aliases also for nodes that a local "$ref" pointer has to traverse.
 // merge         merge keys ("<<: *a") for mappings that start with the members of
 //               an earlier mapping.
 const (
@@ -49,6 +50,7 @@ const (
 	famDate      = "date"
 	famAliasRaw  = "alias-raw"
 	famMerge     = "merge"
+	famAliasRef  = "alias-refpath"
 )
 
 // rawValueKeys: members whose value ogen keeps as raw JSON through
@@ -70,7 +72,7 @@ func drawStyle(t *rapid.T, fams []string) styleCase {
 	var st doctree.Style
 	classes := []string{"yaml-block", "yaml-block", "yaml-block", "yaml-mixed", "yaml-mixed", "yaml-flow", "json-indent", "json-odd", "json-compact"}
 	switch fam {
-	case famYAML11, famDate, famAliasRaw, famMerge:
+	case famYAML11, famDate, famAliasRaw, famMerge, famAliasRef:
 		classes = []string{"yaml-block", "yaml-block", "yaml-mixed", "yaml-flow"}
 	}
 	st.Class = rapid.SampledFrom(classes).Draw(t, "class")
@@ -86,6 +88,7 @@ func drawStyle(t *rapid.T, fams []string) styleCase {
 	st.SeqIndentless = rapid.Bool().Draw(t, "indentless")
 	st.DocStart = rapid.Bool().Draw(t, "docstart")
 	st.DocEnd = rapid.IntRange(0, 4).Draw(t, "docend") == 0
+	st.BOM = rapid.IntRange(0, 11).Draw(t, "bom") == 0
 	if st.Class == "yaml-mixed" {
 		st.FlowPM = rapid.SampledFrom([]int{60, 300, 600}).Draw(t, "flow")
 	}
@@ -109,6 +112,7 @@ func drawStyle(t *rapid.T, fams []string) styleCase {
 	st.AliasPM = rapid.SampledFrom([]int{0, 0, 300, 1000}).Draw(t, "alias")
 	st.ScalarAliasPM = rapid.SampledFrom([]int{0, 0, 0, 100, 600}).Draw(t, "scalaralias")
 	st.NoAliasUnder = rawValueKeys
+	st.ProtectRefPaths = true
 	switch fam {
 	case famYAML11:
 		st.YAML11PM = rapid.SampledFrom([]int{300, 1000}).Draw(t, "yaml11")
@@ -118,6 +122,9 @@ func drawStyle(t *rapid.T, fams []string) styleCase {
 		st.NoAliasUnder = nil
 		st.AliasPM = rapid.SampledFrom([]int{300, 1000}).Draw(t, "alias!")
 		st.ScalarAliasPM = rapid.SampledFrom([]int{0, 300, 1000}).Draw(t, "scalaralias!")
+	case famAliasRef:
+		st.ProtectRefPaths = false
+		st.AliasPM = rapid.SampledFrom([]int{300, 1000}).Draw(t, "alias!")
 	case famMerge:
 		st.MergePM = rapid.SampledFrom([]int{300, 1000}).Draw(t, "merge")
 	}
@@ -131,7 +138,7 @@ func fixedStyles(seed uint64) []styleCase {
 		{famMain, doctree.Style{Class: "yaml-block", Indent: 2, Seed: seed, PlainPM: 1000, KeyPlainPM: 1000, LiteralPM: 1000, CompactPM: 1000, SeqIndentless: true}},
 		{famMain, doctree.Style{Class: "yaml-flow", Seed: seed + 1, PlainPM: 500, KeyPlainPM: 500, SinglePM: 500, FlowBreakPM: 200, JSONKeyPM: 300}},
 		{famMain, doctree.Style{Class: "yaml-mixed", Indent: 4, Seed: seed + 2, FlowPM: 200, PlainPM: 700, KeyPlainPM: 700, SinglePM: 300, LiteralPM: 500, CommentPM: 200, TrailPM: 100, BlankPM: 100,
-			AliasPM: 1000, ScalarAliasPM: 300, NoAliasUnder: rawValueKeys, DocStart: true, EscapePM: 20, NullAltPM: 300, BoolAltPM: 300, ExplicitPM: 30}},
+			AliasPM: 1000, ScalarAliasPM: 300, NoAliasUnder: rawValueKeys, ProtectRefPaths: true, DocStart: true, EscapePM: 20, NullAltPM: 300, BoolAltPM: 300, ExplicitPM: 30}},
 		{famMain, doctree.Style{Class: "json-indent", Indent: 0, Seed: seed + 3, CRLF: true, JSONEscapePM: 20, JSONSurrogatePM: 500}},
 	}
 }
@@ -235,10 +242,16 @@ func ablations(sc styleCase) []ablation {
 		a.NoAliasUnder = rawValueKeys
 		b.AliasPM, b.ScalarAliasPM = 0, 0
 		return []ablation{{a, "alias-inside-raw-value"}, {b, "alias-changes-meaning"}}
+	case famAliasRef:
+		a, b := st, st
+		a.ProtectRefPaths = true
+		b.AliasPM, b.ScalarAliasPM = 0, 0
+		return []ablation{{a, "ref-through-alias-unresolved"}, {b, "alias-changes-meaning"}}
 	case famMerge:
-		a := st
-		a.MergePM = 0
-		return []ablation{{a, "merge-key-not-applied"}}
+		a, b := st, st
+		a.NoMergeIn = []string{"properties", "patternProperties"}
+		b.MergePM = 0
+		return []ablation{{a, "merge-key-in-properties-map"}, {b, "merge-key-not-applied"}}
 	}
 	return nil
 }
@@ -249,7 +262,7 @@ func familyFeatureUsed(fam string, u doctree.Used) bool {
 		return u.YAML11Plain > 0
 	case famDate:
 		return u.DatePlain > 0
-	case famAliasRaw:
+	case famAliasRaw, famAliasRef:
 		return u.Aliases > 0
 	case famMerge:
 		return u.Merges > 0
@@ -258,31 +271,50 @@ func familyFeatureUsed(fam string, u doctree.Used) bool {
 }
 
 // agree compares the outcomes of two texts of the same subject beyond a single
-// run: "" = they differ; "agree"; "agree-as-sets" = both are rejected, at least
-// one side's own diagnostic changes between runs of the SAME text (map-order
-// or goroutine-order dependent message selection) and the sets of diagnostics
-// over 5 runs intersect; "baseline-not-deterministic" = both accepted but the
-// first text does not even agree with itself (determinism is C10's subject).
+// run. "" = they differ; "agree"; "agree-as-sets" = the single runs differed
+// but over repeated runs of the SAME texts the sets of outcomes intersect, i.e.
+// one side's own outcome is not stable (map-order or goroutine-order dependent
+// message selection, or non-deterministic output: C10's subject, not C17's).
 func agree(s *subject, textA, textB []byte, a, b outcome) string {
 	if sameOutcome(a, b) == "" {
 		return "agree"
 	}
-	if !a.OK && !b.OK {
-		sa, sb := errSet(textA, s.Prof, 5), errSet(textB, s.Prof, 5)
-		if len(sa) > 1 || len(sb) > 1 {
-			for _, x := range sa {
-				for _, y := range sb {
-					if x == y {
-						return "agree-as-sets"
-					}
-				}
-			}
+	if a.OK != b.OK {
+		// accepted vs rejected: confirm once more from scratch
+		a2, b2 := runOgen(textA, s.Prof, false), runOgen(textB, s.Prof, false)
+		if a2.OK == b2.OK && sameOutcome(a2, b2) == "" {
+			return "agree-as-sets"
 		}
 		return ""
 	}
-	if a.OK && b.OK {
-		if sameOutcome(a, runOgen(textA, s.Prof, false)) != "" {
-			return "baseline-not-deterministic"
+	key := func(o outcome) string {
+		if !o.OK {
+			return "[" + o.Stage + "] " + o.Err
+		}
+		var sb strings.Builder
+		for _, n := range o.Names {
+			x := o.Sums[n]
+			fmt.Fprintf(&sb, "%s=%x;", n, x[:8])
+		}
+		return sb.String()
+	}
+	sa, sb := map[string]bool{key(a): true}, map[string]bool{key(b): true}
+	intersect := func() bool {
+		for k := range sa {
+			if sb[k] {
+				return true
+			}
+		}
+		return false
+	}
+	for round := 0; round < 20; round++ {
+		sa[key(runOgen(textA, s.Prof, false))] = true
+		sb[key(runOgen(textB, s.Prof, false))] = true
+		if intersect() {
+			return "agree-as-sets"
+		}
+		if round >= 4 && len(sa) == 1 && len(sb) == 1 {
+			return "" // both sides stable over 5 more runs, and different
 		}
 	}
 	return ""
@@ -337,10 +369,7 @@ func evaluate(s *subject, sc styleCase, herr *harnessErrors) verdict {
 	case "agree":
 		return v
 	case "agree-as-sets":
-		v.Skipped = "unstable-diagnostic" // agreed as sets over 5 runs
-		return v
-	case "baseline-not-deterministic":
-		v.Skipped = "baseline-not-deterministic"
+		v.Skipped = "unstable-outcome" // agreed as sets over repeated runs
 		return v
 	}
 	msg := describeMismatch(s, text, base, got)
@@ -386,7 +415,7 @@ func record(u *vk.Unit, s *subject, sc styleCase, v verdict) {
 		u.Label("baseline:rejected")
 		if os.Getenv("C17_DEBUG") != "" {
 			b := s.baseline()
-			u.Label("reject:" + b.Stage + ":" + clipStr(lastPart(b.Err), 70))
+			u.Label("reject:" + b.Stage + ":" + clipStr(lastPart(b.Err), 160))
 		}
 	}
 	us := v.Used
@@ -403,6 +432,9 @@ func record(u *vk.Unit, s *subject, sc styleCase, v verdict) {
 	}
 	if sc.Style.CRLF {
 		u.Label("uses:crlf")
+	}
+	if sc.Style.BOM && !sc.Style.IsJSON() {
+		u.Label("uses:bom")
 	}
 	if v.NonTrivial {
 		u.NonTrivial(fmt.Sprintf("%x/%+v", s.Hash, sc.Style))
@@ -604,14 +636,14 @@ func runCorpusUnit(t *testing.T, unit string, dirs []string, strict bool, fams [
 	}, check)
 }
 
-var mainHeavy = []string{famMain, famMain, famMain, famMain, famMain, famMain, famYAML11, famDate, famAliasRaw, famMerge}
+var mainHeavy = []string{famMain, famMain, famMain, famMain, famMain, famMain, famYAML11, famDate, famAliasRaw, famAliasRef, famMerge}
 
 func TestCorpus(t *testing.T) {
-	runCorpusUnit(t, "corpus", []string{"positive", "examples"}, false, mainHeavy, vk.N(5, 40))
+	runCorpusUnit(t, "corpus", []string{"positive", "examples"}, false, mainHeavy, vk.N(3, 40))
 }
 
 func TestNegative(t *testing.T) {
-	runCorpusUnit(t, "negative", []string{"negative"}, true, mainHeavy, vk.N(12, 150))
+	runCorpusUnit(t, "negative", []string{"negative"}, true, mainHeavy, vk.N(10, 150))
 }
 
 func lastPart(e string) string {
